@@ -48,6 +48,23 @@ func drawBytes(t *rapid.T, n int, label string) []byte {
 		}
 		copy(b[at:], fr)
 	}
+	if seed%16 == 3 && n > 0 {
+		// binary values that happen to be TEXT: only hex digits (lower / upper
+		// / mixed), only decimal digits, base64 / base64url alphabet, printable
+		// ASCII - what a lenient setter might "helpfully" decode
+		alphabets := []string{"0123456789abcdef", "0123456789ABCDEF", "0123456789abcdefABCDEF", "0123456789", "ABCDEFGHIJKLMNOPQRSTUVWXYZabcdefghijklmnopqrstuvwxyz0123456789+/", "ABCDEFGHIJKLMNOPQRSTUVWXYZabcdefghijklmnopqrstuvwxyz0123456789-_", " !#$%&()*+,-./:;<=>?@[]^_{|}~abcXYZ019"}
+		al := alphabets[int(seed>>4)%len(alphabets)]
+		y := seed>>8 | 1
+		for i := range b {
+			y ^= y << 13
+			y ^= y >> 17
+			y ^= y << 5
+			b[i] = al[int(y>>3)%len(al)]
+		}
+		if (seed>>7)%4 == 0 && n >= 4 {
+			b[n-1], b[n-2] = '=', '=' // base64 padding
+		}
+	}
 	if seed%16 == 9 && n > 0 {
 		b[n-1] = []byte{0x00, 0xff, 0x00, 0x80}[(seed>>4)%4]
 		if (seed>>6)%2 == 0 {
@@ -220,7 +237,10 @@ func drawInvalidCertRef(t *rapid.T, p Prof) string {
 			base += "-" + drawDigits(t, 5, "cert.ext")
 		}
 		var s string
-		switch rapid.IntRange(0, 7).Draw(t, "cert.edit") {
+		switch rapid.IntRange(0, 8).Draw(t, "cert.edit") {
+		case 8: // parts of the format repeated / combined
+			e13, e5 := drawDigits(t, 13, "cert.r13"), drawDigits(t, 5, "cert.r5")
+			s = rapid.SampledFrom([]string{e13 + "-" + e5 + "-" + e5, e13 + "-" + e5 + "-" + e5 + "-" + e5, e13 + e13, e13 + "-" + e13, e13 + "-" + e5 + e5, e13 + "--" + e5, e13 + "-" + e5 + "-", "-" + e13 + "-" + e5, e13 + " " + e5, e13 + "-" + e5 + " " + e13 + "-" + e5, e13 + "-" + e5 + "," + e13, e5 + "-" + e13}).Draw(t, "cert.repeat")
 		case 6: // right length and alphabet, dash somewhere else
 			d := drawDigits(t, 18, "cert.d18")
 			i := rapid.IntRange(0, 18).Draw(t, "cert.dash")
